@@ -842,44 +842,4 @@ theorem seek_hit_self {f : File} {unc : Codec} {m : MR} (_hne : m.offset ≠ m.d
     · simp only [ho, if_true] at h; exact absurd h (by decide)
     · simp only [ho, if_false]
 
-/-- **`read_value` restores the position.**  A detour (seek elsewhere, read, seek back to the remembered
-`get_position`) that succeeds leaves a reader from which every continuation reads exactly what it would have
-read without the detour, and which reports the remembered position. -/
-theorem oolDetour_restores {f : File} {unc : Codec} (hc : CodecOK unc) {m : MR} (cm : Coherent f unc m)
-    (b o n : Nat) (hok : (oolDetour true f unc m b o n).1 = 0) :
-    getPos (oolDetour true f unc m b o n).2.2 = getPos m ∧
-    ∀ ns, answerReads true f unc (oolDetour true f unc m b o n).2.2 ns = answerReads true f unc m ns := by
-  unfold oolDetour at hok ⊢
-  simp only at hok ⊢
-  by_cases h1 : (seek true f unc m b o).1 = 0
-  · simp only [h1, ne_eq, not_true_eq_false, if_false] at hok ⊢
-    by_cases h2 : (read true f unc (seek true f unc m b o).2 n).1 = 0
-    · simp only [h2, ne_eq, not_true_eq_false, if_false] at hok ⊢
-      have cs := seek_coherent hc cm b o
-      have cr := read_coherent hc cs n
-      have hsl := seek_start_limit true f unc m b o
-      have hrl := readLoop_start_limit true f unc n (seek true f unc m b o).2 n []
-      have hstart : (read true f unc (seek true f unc m b o).2 n).2.2.start = m.start := hrl.1.trans hsl.1
-      have hlimit : (read true f unc (seek true f unc m b o).2 n).2.2.limit = m.limit := hrl.2.trans hsl.2
-      generalize (read true f unc (seek true f unc m b o).2 n).2.2 = r at *
-      have c3 := seek_coherent hc cr (getPos m).1 (getPos m).2
-      have hv := seek_sim_of_coherent hc cr cm hstart hlimit (getPos m).1 (getPos m).2
-      refine ⟨seek_getPos hc hok, fun ns => ?_⟩
-      by_cases hend : m.offset = m.dataUsed
-      · have hp : getPos m = (m.nextBlock, 0) := by unfold getPos; simp only [hend, if_true]
-        rw [hp] at hok hv c3 ⊢
-        simp only at hok hv c3 ⊢
-        have hm0 : (seek true f unc m m.nextBlock 0).1 = 0 := hv.1.symm.trans hok
-        exact (answerReads_from_block_end hc ns m _ cm c3 hend hm0 (hv.2 hok).symm).symm
-      · have hp : getPos m = (m.tag, m.offset) := by unfold getPos; simp only [hend, if_false]
-        rw [hp] at hok hv c3 ⊢
-        simp only at hok hv c3 ⊢
-        have hm0 : (seek true f unc m m.tag m.offset).1 = 0 := hv.1.symm.trans hok
-        have hself := seek_hit_self hend hm0
-        have hsim := hv.2 hok
-        rw [hself] at hsim
-        exact sim_answerReads hc ns _ _ hsim c3 cm
-    · simp only [h2, ne_eq, not_false_eq_true, if_true] at hok
-  · simp only [h1, ne_eq, not_false_eq_true, if_true] at hok
-
 end Sqfs.MetaReader
